@@ -179,8 +179,14 @@ def replay_state(ctx, s):
                     ctx.violation(dict(case, q=q, sym=name, classical=True, used_before=True), "ContainmentEquivariant", c, got)
 
 
+def weak_hash_events(ctx):
+    """Run in the weak-hash interpreter (harness/weakhash.py): the hardening events, recorded where permutations and patterns share a few hash values."""
+    return hardening_events(ctx, True)
+
+
 def run(ctx):
     quick = ctx.tier == "quick"
+    weak = util.weak_hash_start(ctx, "c04", "weak_hash_events")
     nsh = 8
     base = {"MaxPerm": 5 if quick else 7, "MaxMesh": 2, "SetMaxLen": 3, "SetMaxSize": 2 if quick else 3,
             "EqMaxPerm": 4 if quick else 5}
@@ -250,6 +256,7 @@ def run(ctx):
                            "before": Q.contains(M), "after": apply_obj(Q, name, k).contains(got)})
     nbefore = len(events)
     events.extend(hardening_events(ctx, quick))
+    events.extend(util.weak_hash_finish(ctx, weak, "c04"))
     ctx.note("hardening_events", len(events) - nbefore)
     tc = dict(base, Mode='"trace"', Shard=0, NShards=1)
     v = util.validate_trace(ctx, "Trace_C04", events, constants=tc, ntraces=n_ev)
